@@ -121,7 +121,21 @@ let replay_file path =
            (Printf.sprintf " %s:%d:%d:%d:%d:%d:%d:%d" t (int_of_n (live_count !m SC)) (int_of_n (live_count !m SH))
               (if st then 1 else 0) (c SC EAlloc) (c SC EFree) (c SH EAlloc) (c SH EFree));
          seg_events := [];
-         if not st then status := "unsettled:" ^ t;
+         if not st then status := "unsettled:" ^ t
+         else if not plain_only && not (no_dangling !m) then begin
+           (* name one dangling wrapper for the report *)
+           let bad = ref "" in
+           List.iteri (fun idx (sl : obj slot) ->
+             match sl.sval with
+             | Some o -> (match o.odata with
+                 | c :: _ ->
+                     let ck = key_of_raw c in
+                     if !bad = "" && not (live !m SC ck) && stale !m.m_cl ck then
+                       bad := Printf.sprintf "%d:%d:%d:%d" idx (int_of_n sl.sver) (int_of_n ck.kidx) (int_of_n ck.kver)
+                 | [] -> ())
+             | None -> ()) !m.m_hp.slots;
+           status := Printf.sprintf "dangling:%s:%s" t !bad
+         end;
          incr i
      | Ev (e, txt) ->
          let predicted =
